@@ -55,6 +55,9 @@ pub struct SessionCase {
 pub struct C14;
 
 const GRACE_MS: u64 = 3_000;
+/// intents with `what` at or above this value are, while a search with an end of its own is running, the
+/// impatient GUI's early position + go (values below keep the meaning they have in the committed replay files)
+const EARLY_GO: u8 = 66;
 const DELAYS: [u64; 5] = [0, 1, 5, 20, 100];
 
 #[derive(Clone, Debug)]
@@ -128,6 +131,34 @@ impl C14 {
                 std::thread::sleep(Duration::from_millis(d));
             }
             ev.eval();
+            if searching.is_none() && it.what >= EARLY_GO {
+                // the impatient GUI's pair: a go with a small budget of its own, and (below) the next go a moment later
+                if !game {
+                    s.send(&format!("position {}", POSITIONS[(it.a / 7) as usize % POSITIONS.len()]));
+                    game = true;
+                }
+                let (cmd, sr) = match it.a % 7 {
+                    0 => ("go depth 1".to_string(), Searching::Depth),
+                    1 => ("go depth 3".to_string(), Searching::Depth),
+                    2 | 3 => {
+                        let mt = [0u64, 1, 3, 5, 6, 8, 20][(it.a / 7) as usize % 7];
+                        (format!("go movetime {}", mt), Searching::MoveTime(mt))
+                    }
+                    4 => ("go wtime 50 btime 50 winc 0 binc 0".to_string(), Searching::Timed(0)),
+                    5 => ("go wtime 8000 btime 8000 winc 0 binc 0".to_string(), Searching::Timed(10)),
+                    _ => ("go wtime 1000 btime 1000 winc 140 binc 140".to_string(), Searching::Timed(10)),
+                };
+                s.send(&cmd);
+                go_sent_at = Some(Instant::now());
+                searching = Some(sr);
+                n_search += 1;
+                accepted_go += 1;
+                let pause_us = [0u64, 100, 1_000, 5_000, 20_000][(it.b / 4) as usize % 5];
+                let t = Instant::now();
+                while t.elapsed() < Duration::from_micros(pause_us) {
+                    std::hint::spin_loop();
+                }
+            }
             match searching.clone() {
                 None => match it.what % 11 {
                     0 => {
@@ -253,7 +284,7 @@ impl C14 {
                     let infinite = matches!(sr, Searching::Infinite);
                     // while searching: isready always; show/position/go only while an infinite search is
                     // known to be running (their refusal is then unambiguous); otherwise await the move
-                    let choice = it.what % 6;
+                    let choice = if !infinite && it.what >= EARLY_GO { 6 } else { it.what % 6 };
                     if choice == 0 {
                         during += 1;
                         s.send("isready");
@@ -286,6 +317,60 @@ impl C14 {
                             fail!("bestmove-count", "ucinewgame during a {:?} search: {} accepted go commands, {} bestmove lines once readyok arrived", sr, accepted_go, bestmoves);
                         }
                         ev.class("ucinewgame_while_searching");
+                        searching = None;
+                        game = false;
+                    } else if choice == 6 {
+                        // impatient GUI: a new position and go without waiting for the answer to the running go. Whether
+                        // they are refused or accepted depends on a race the harness does not control; whichever it is,
+                        // the engine says so (an error line = refused), and the counts must add up afterwards.
+                        during += 1;
+                        let with_position = it.a % 2 == 0;
+                        if with_position {
+                            s.send(&format!("position {}", POSITIONS[(it.a / 2) as usize % POSITIONS.len()]));
+                            s.send("isready");
+                        }
+                        s.send(&format!("go depth {}", 1 + it.b % 2));
+                        s.send("isready");
+                        let budget = match sr {
+                            Searching::Timed(b) | Searching::MoveTime(b) => b,
+                            _ => 4_000,
+                        };
+                        if with_position && expect!(|l| l == "readyok", grace + budget + 4_000).is_none() {
+                            fail!("isready-unanswered", "isready after an early position (during a {:?} search) unanswered", sr);
+                        }
+                        let accepted = match expect!(|l| l == "readyok", grace + budget + 4_000) {
+                            None => fail!("isready-unanswered", "isready after an early go (during a {:?} search) unanswered", sr),
+                            Some(ls) => !ls.iter().any(|l| l.starts_with("error")),
+                        };
+                        n_search += 1;
+                        if accepted {
+                            accepted_go += 1;
+                            ev.class("early_go_accepted");
+                        } else {
+                            ev.class("early_go_refused");
+                        }
+                        // settle: stop joins the newest search thread; by the time readyok arrives every accepted go
+                        // must have been answered (an older thread can only be one that was let finish before)
+                        s.send("stop");
+                        s.send("isready");
+                        if expect!(|l| l == "readyok", grace + 4_000).is_none() {
+                            fail!("isready-unanswered", "isready after stop (early go during a {:?} search) unanswered", sr);
+                        }
+                        std::thread::sleep(Duration::from_millis(30 + hook_total));
+                        let stray = s.drain(20);
+                        bestmoves += stray.iter().filter(|l| l.starts_with("bestmove")).count() as u32;
+                        if let Some(p) = s.panicked() {
+                            fail!("panic", "after an early go during a {:?} search; stderr: {}", sr, p);
+                        }
+                        if bestmoves != accepted_go {
+                            fail!("bestmove-count", "early go during a {:?} search ({}): {} accepted go commands, {} bestmove lines after stop + readyok", sr, if accepted { "accepted" } else { "refused" }, accepted_go, bestmoves);
+                        }
+                        // make the state known again
+                        s.send("ucinewgame");
+                        s.send("isready");
+                        if expect!(|l| l == "readyok", grace).is_none() {
+                            fail!("isready-unanswered", "isready after ucinewgame unanswered");
+                        }
                         searching = None;
                         game = false;
                     } else if infinite && (choice == 1 || choice == 2) && bestmoves < accepted_go {
@@ -447,7 +532,7 @@ impl Prop for C14 {
     }
 
     fn rule(&self) -> String {
-        "Cases (model-based): 3-16 GUI intents over {isready, uci, show, position, go depth|movetime|depth+movetime|clock|infinite, ucinewgame, stop, wait} interpreted by a GUI state machine (no game / game set / searching) so that every expectation is unambiguous, each preceded by a generated delay of 0/1/5/20/100 ms, together with a generated delay 0/20/100 ms for each of nine schedule points in command_go and the search-thread epilogue (before_flag_raise, after_flag_raise, timer_wakeup, before_search_spawn, search_thread_start, after_search_return, after_flag_clear, after_game_drop, after_bestmove_print). Run against the real binary built with the hooks. History invariants: exactly one bestmove per accepted go (never `none` here), each within its deadline (depth: grace; timed: budget + hook delays + grace; infinite: only after stop - the curated positions have no forced mate or single reply, so an infinite search that announces a move by itself, or a `go movetime T` answered well before T, is a violation: that is how a stale timer of an earlier `go depth d movetime T` shows), isready answered while idle and while searching, show/position/go refused while an infinite search runs, ucinewgame while searching stops the search (its bestmove is there before the next readyok), quit while searching exits with status 0, a position + go sent right after a bestmove line was read are honoured, no stray bestmove at the end, no panic on stderr, exit status 0 after quit. evaluations = commands issued. Non-trivial session: at least two searches and (a stretched schedule point or a command sent while searching); distinct by command script and delays.".into()
+        "Cases (model-based): 3-16 GUI intents over {isready, uci, show, position, go depth|movetime|depth+movetime|clock|infinite, ucinewgame, stop, wait} interpreted by a GUI state machine (no game / game set / searching) so that every expectation is unambiguous, each preceded by a generated delay of 0/1/5/20/100 ms, together with a generated delay 0/20/100 ms for each of nine schedule points in command_go and the search-thread epilogue (before_flag_raise, after_flag_raise, timer_wakeup, before_search_spawn, search_thread_start, after_search_return, after_flag_clear, after_game_drop, after_bestmove_print). Run against the real binary built with the hooks. History invariants: exactly one bestmove per accepted go (never `none` here), each within its deadline (depth: grace; timed: budget + hook delays + grace; infinite: only after stop - the curated positions have no forced mate or single reply, so an infinite search that announces a move by itself, or a `go movetime T` answered well before T, is a violation: that is how a stale timer of an earlier `go depth d movetime T` shows), isready answered while idle and while searching, show/position/go refused while an infinite search runs, ucinewgame while searching stops the search (its bestmove is there before the next readyok), quit while searching exits with status 0, a position + go sent right after a bestmove line was read are honoured, an impatient GUI's early `position` + `go` sent 0-20 ms after a go with a small budget of its own (depth 1/3, movetime 0-20, exhausted clocks) - without waiting for the answer - is either refused with an error line or accepted, and after `stop` + `readyok` the number of bestmove lines equals the number of accepted go commands with no panic on stderr (one intent in five is such a pair), no stray bestmove at the end, no panic on stderr, exit status 0 after quit. evaluations = commands issued. Non-trivial session: at least two searches and (a stretched schedule point or a command sent while searching); distinct by command script and delays.".into()
     }
 
     fn assumptions(&self) -> Vec<String> {
@@ -482,7 +567,7 @@ impl Prop for C14 {
     }
 
     fn strategy(&self, _ctx: &Ctx) -> BoxedStrategy<SessionCase> {
-        let intent = (0u8..66, any::<u16>(), any::<u16>(), 0u8..5).prop_map(|(what, a, b, delay)| Intent { what, a, b, delay });
+        let intent = (prop_oneof![4 => 0u8..EARLY_GO, 1 => EARLY_GO..EARLY_GO + 12], any::<u16>(), any::<u16>(), 0u8..5).prop_map(|(what, a, b, delay)| Intent { what, a, b, delay });
         let sched = vec((0u8..9, prop_oneof![5 => Just(0u8), 2 => Just(1u8), 2 => Just(2u8)]), 0..6);
         (sched, vec(intent, 3..17)).prop_map(|(sched, intents)| SessionCase { sched, intents, repeat: 0 }).boxed()
     }
